@@ -130,15 +130,6 @@ def le32 (b : Bytes) : Outcome Nat :=
   | b0 :: b1 :: b2 :: b3 :: _ => .ok (b0.toNat + 256 * b1.toNat + 65536 * b2.toNat + 16777216 * b3.toNat)
   | _ => .panic "slice bounds out of range"
 
-/-- the magic / flag byte dispatch of parseBocHeader: (hasIdx, hasCrc, hasCache, flags, sizeBytes, hasRootList) -/
-def headerKind (pre : Bytes) (fb : UInt8) : Option (Bool × Bool × Bool × Nat × Nat × Bool) :=
-  let f := fb.toNat
-  if pre = magicGeneric then
-    some ((f &&& 128) > 0, (f &&& 64) > 0, (f &&& 32) > 0, ((f &&& 16) * 2 + (f &&& 8)) % 256, f % 8, true)
-  else if pre = magicIdx then some (true, false, false, 0, f, false)
-  else if pre = magicIdxCrc then some (true, true, false, 0, f, false)
-  else none
-
 /-- allocation sizes (bytes per element) of the Go slices -/
 def szUint : Nat := 8
 def szPtr : Nat := 8
@@ -146,7 +137,7 @@ def szSliceHdr : Nat := 24
 /-- `NewCell()`: the Cell struct and the 128-byte buffer of `NewBitString(1023)` -/
 def szCell : Nat := 112 + 128
 
-/-- the six facts the magic and the flag byte determine: hasIdx, hasCrc, hasCache, flags, sizeBytes, hasRootList -/
+/-- the six facts the magic and the flag byte determine -/
 structure Kind where
   hasIdx : Bool
   hasCrc : Bool
@@ -156,8 +147,14 @@ structure Kind where
   hasRootList : Bool
   deriving Repr, DecidableEq, Inhabited
 
-def Kind.ofTuple : Bool × Bool × Bool × Nat × Nat × Bool → Kind
-  | (a, b, c, d, e, f) => ⟨a, b, c, d, e, f⟩
+/-- the magic / flag byte dispatch of parseBocHeader -/
+def headerKind (pre : Bytes) (fb : UInt8) : Option Kind :=
+  let f := fb.toNat
+  if pre = magicGeneric then
+    some ⟨(f &&& 128) > 0, (f &&& 64) > 0, (f &&& 32) > 0, ((f &&& 16) * 2 + (f &&& 8)) % 256, f % 8, true⟩
+  else if pre = magicIdx then some ⟨true, false, false, 0, f, false⟩
+  else if pre = magicIdxCrc then some ⟨true, true, false, 0, f, false⟩
+  else none
 
 open M in
 /-- parseBocHeader, part 1: length test, checksum range, magic and flag byte.
@@ -173,7 +170,7 @@ def parsePrefix (boc0 : Bytes) : M (Kind × Bytes × Bytes) := do
   | none => fail "unknown magic prefix"
   | some k =>
     let boc ← lift (sliceFrom boc 1)
-    pure (Kind.ofTuple k, body, boc)
+    pure (k, body, boc)
 
 /-- the counters of the header -/
 structure Counters where
@@ -291,6 +288,52 @@ def readRefs : Nat → Nat → Bytes → Outcome (List Int × Bytes)
 def hashSize : Nat := 32
 def depthSize : Nat := 2
 
+/-- what the two descriptor bytes say -/
+structure Descr where
+  isExotic : Bool
+  refNum : Nat
+  dataBytesSize : Nat
+  fulfilled : Bool
+  withHashes : Bool
+  mask : Nat
+  deriving Repr, DecidableEq, Inhabited
+
+/-- the descriptor arithmetic of deserializeCellData -/
+def descr (d1 d2 : Nat) : Descr :=
+  { isExotic := (d1 &&& 8) > 0
+    refNum := d1 % 8
+    dataBytesSize := d2 / 2 + d2 % 2
+    fulfilled := !(d2 % 2 > 0)
+    withHashes := (d1 &&& 16) ≠ 0
+    mask := d1 / 32 }
+
+open M in
+/-- deserializeCellData after the descriptor bytes -/
+def parseCellBody (D : Descr) (cd : Bytes) (refSize : Nat) : M (RawCell × Bytes) := do
+  let cd ← (do
+    if D.withHashes then
+      let offset := LevelMask.hashesCount D.mask * (hashSize + depthSize)
+      if lenLt cd offset then fail "not enough bytes to encode cell hashes" else
+      lift (sliceFrom cd offset)
+    else pure cd : M Bytes)
+  if lenLt cd (addI D.dataBytesSize (mulI refSize D.refNum)) then fail "not enough bytes to encode cell data" else
+  let ty ← (do
+    if D.isExotic then
+      if D.dataBytesSize < 1 then fail "not enough bytes to encode exotic cell type" else
+      let t ← lift (readN 1 cd 0)
+      pure (t % 256)
+    else pure 0 : M Nat)
+  alloc szCell
+  let arr ← lift (sliceTo cd D.dataBytesSize)
+  makeSlice 1 D.dataBytesSize
+  let bits ← lift (setTopUpped arr D.fulfilled)
+  if ty = tyPruned ∧ D.dataBytesSize < 2 + LevelMask.hashIndex D.mask * (hashSize + depthSize) then
+    fail "not enough data for a pruned branch cell" else
+  let cd ← lift (sliceFrom cd D.dataBytesSize)
+  makeSlice szUint D.refNum
+  let (refs, cd) ← lift (readRefs D.refNum refSize cd)
+  pure ({ ty := ty, mask := D.mask, bits := bits, refs := refs }, cd)
+
 open M in
 /-- boc/boc.go deserializeCellData (repaired version) -/
 def parseCell (cd0 : Bytes) (refSize : Nat) : M (RawCell × Bytes) := do
@@ -299,37 +342,7 @@ def parseCell (cd0 : Bytes) (refSize : Nat) : M (RawCell × Bytes) := do
   let cd1 ← lift (sliceFrom cd0 1)
   let d2b ← lift (head cd1)
   let cd ← lift (sliceFrom cd0 2)
-  let d1 := d1b.toNat
-  let d2 := d2b.toNat
-  let isExotic := (d1 &&& 8) > 0
-  let refNum := d1 % 8
-  let dataBytesSize := d2 / 2 + d2 % 2
-  let fulfilled := !(d2 % 2 > 0)
-  let withHashes := (d1 &&& 16) ≠ 0
-  let mask := d1 / 32
-  let cd ← (do
-    if withHashes then
-      let offset := LevelMask.hashesCount mask * (hashSize + depthSize)
-      if lenLt cd offset then fail "not enough bytes to encode cell hashes" else
-      lift (sliceFrom cd offset)
-    else pure cd : M Bytes)
-  if lenLt cd (addI dataBytesSize (mulI refSize refNum)) then fail "not enough bytes to encode cell data" else
-  let ty ← (do
-    if isExotic then
-      if dataBytesSize < 1 then fail "not enough bytes to encode exotic cell type" else
-      let t ← lift (readN 1 cd 0)
-      pure (t % 256)
-    else pure 0 : M Nat)
-  alloc szCell
-  let arr ← lift (sliceTo cd dataBytesSize)
-  makeSlice 1 dataBytesSize
-  let bits ← lift (setTopUpped arr fulfilled)
-  if ty = tyPruned ∧ dataBytesSize < 2 + LevelMask.hashIndex mask * (hashSize + depthSize) then
-    fail "not enough data for a pruned branch cell" else
-  let cd ← lift (sliceFrom cd dataBytesSize)
-  makeSlice szUint refNum
-  let (refs, cd) ← lift (readRefs refNum refSize cd)
-  pure ({ ty := ty, mask := mask, bits := bits, refs := refs }, cd)
+  parseCellBody (descr d1b.toNat d2b.toNat) cd refSize
 
 /-- the cell loop of DeserializeBoc: `k` cells from `cd` -/
 def parseCells : Nat → Bytes → Nat → M (List RawCell)
